@@ -458,6 +458,33 @@ func ruleCRCExtraPreimage(c *Ctx, rule string) {
 		probs = append(probs, "result is not byte((sum & 0xFF) ^ (sum >> 8))")
 	}
 	r.Check(len(probs) == 0, rule, "Initialize crcExtra pre-image", c.Pos(crcFn.Pos()), "name, then type/name/array-length per base field, folded to one byte", strings.Join(probs, "; "))
+	// scalar char: a `char` field without an array length (Go string without mavlen) is ONE byte on the wire but is not
+	// an array: the spec hashes no length byte for it. If Initialize gives it a non-zero arrayLength (to drive the
+	// 1-byte string codec) the CRC closure must exclude it by an additional condition.
+	scalarOne := false
+	for _, in := range allInstrs(ini) {
+		if phi, ok := in.(*ssa.Phi); ok && intWidth(phi.Type()) > 0 {
+			for i, e := range phi.Edges {
+				if k, isK := constInt(e); isK && k == 1 {
+					// the edge comes from the `len(mavlen tag) == 0` branch
+					pred := phi.Block().Preds[i]
+					for _, iff := range ifsIn(ini) {
+						if strings.Contains(ex(iff.Cond), "\"mavlen\"") && strings.HasSuffix(ex(iff.Cond), " == 0)") && (iff.Block().Succs[0] == pred || edgeMustPass(ini, edge{iff.Block(), iff.Block().Succs[0]}, pred)) {
+							scalarOne = true
+						}
+					}
+				}
+			}
+		}
+	}
+	if len(seq) == len(want) {
+		extra := strings.Replace(seq[3].cond, "(F.arrayLength > 0)", "", 1)
+		extra = strings.Replace(extra, "!F.isExtension", "", 1)
+		excluded := strings.Contains(extra, "F.") // an additional condition on the field descriptor
+		r.Check(!scalarOne || excluded, rule, "Initialize crcExtra scalar char", c.Pos(crcFn.Pos()), "a scalar char contributes no array-length byte",
+			"a scalar `char` field (Go string without mavlen) is given arrayLength 1 and the CRC_EXTRA closure hashes the length byte for every field with arrayLength > 0: "+
+				"CRC_EXTRA of messages with a scalar char differs from the spec (test.xml TEST_TYPES: 17 instead of the published 103)")
+	}
 	// message name and field name derivations
 	okName := false
 	for _, in := range allInstrs(ini) {
@@ -633,7 +660,7 @@ func ruleDialectData(c *Ctx, rule string, withLayout bool) []*dialectDef {
 // published table refers to).
 func isStandardCarrier(m *msgDef) bool {
 	switch m.defPkg {
-	case "pkg/dialects/common", "pkg/dialects/minimal", "pkg/dialects/standard":
+	case "pkg/dialects/common", "pkg/dialects/minimal", "pkg/dialects/standard", "pkg/dialects/test":
 		return true
 	}
 	return false
